@@ -40,7 +40,7 @@ def run(ctx):
         r = roles(ctx, v)
         inv = p.method(v, "_invoke_service")
         callers = res.callers_of(inv, v, r.funcs)
-        c.floor("R1", f"_invoke_service callers ({v})", len(callers), 1)
+        c.expect("R1", f"_invoke_service callers ({v})", len(callers), 1, sched, f"under {v} nothing calls _invoke_service any more: invoked services are not started on entry")
         for s in callers:
             ok = s.func.qualname == sched.qualname
             c.ob("R1", ok, s.func, "starts-service", "services are started only by _schedule_state_tasks" if ok else
@@ -195,7 +195,7 @@ def handle_before_start(ctx, rid="R5"):
                 handles.add(x.func.value.id)
     c.need(handles, "teardown handle of the invoked child (receiver of .stop() in finally / handler)")
     starts = [x for x in own_nodes(f.node) if isinstance(x, ast.Call) and _reaches_child_start(ctx, "Interpreter", f, x)]
-    c.floor(rid, "awaits that start the invoked child", len(starts), 1)
+    c.expect(rid, "awaits that start the invoked child", len(starts), 1, f, f"{f.short} no longer starts the invoked child machine")
     from sa.util import assignments_to
     for st in starts:
         sn = cfg_node_of(f, st)
